@@ -300,8 +300,10 @@ def run(ctx):
         ctx.sample({"P": c[0], "seed": c[1], "adversary": c[2], "op": c[3], "dtype": DTN[c[4]], "count": c[5], "target": c[6]})
     ctx.cov["trusted_base"] = ["tools/simmpi and its trace", "Python float arithmetic as IEEE-754 binary64/binary32 (struct rounding) in the evaluation of symbolic payloads",
                                "sc_reduce: the step from the per-rank programs (tied to the C code by co-simulation of every rank's trace) to the global "
-                               "tree model under all interleavings is PROVED (C03_reduce_every_schedule, interleaving semantics of coq/MPI/Sem.v); "
-                               "sc_allreduce: see docs/C03.md",
+                               "tree model under all interleavings is PROVED (C03_reduce_every_schedule, interleaving semantics of coq/MPI/Sem.v; "
+                               "C03_allreduce_every_schedule for the literal posting-order program of sc_allreduce under the posted-receive "
+                               "semantics of coq/MPI/SemPosted.v: a pending Irecv does not hold back later Isends of its window, receives "
+                               "complete in any order); the reading of Irecv/Isend/Waitall by that semantics is argued in docs/C03.md",
                                "Coq standard-library axiom functional_extensionality_dep (equality of global states in the confluence theorem)"]
     ctx.assumptions += ["signed integer sums wrap (harness built with -fwrapv; overflow is undefined behaviour in C and in MPI_SUM alike)", "MPI delivers every message once, in order per (source, tag, communicator)", "long double is not exercised (no portable bit-exact reference)"]
     return "proof"
